@@ -57,6 +57,10 @@ def forms(name):
         out.append(('read/augmented-assignment-to-another-variable %s=' % op, 'read',
                     IND + ID + WS + esc(op) + '=' + WS + A))
         out.append(('write/augmented-assignment-to-the-attribute %s=' % op, 'aug', IND + A + WS + esc(op) + '=' + WS + NUM))
+        # the right-hand side reads the same-named attribute (of the same or another object): still one statement that
+        # must be classified non-atomic; what the two reads then do to the lock is the `obj.attr op= other.attr` target
+        out.append(('write/augmented-assignment-whose-right-side-reads-the-attribute %s=' % op, 'aug',
+                    IND + A + WS + esc(op) + '=' + WS + A))
     out.append(('read/operator-inside-a-trailing-comment', 'read', IND + ID + WS + '=' + WS + A + r'[ ]+#[ -~]*'))
     out.append(('read/operator-inside-a-string-literal', 'read', IND + ID + r'\("[ -!#-~]*", ' + A + r'\)'))
     out.append(('lock-request', 'lockreq', IND + r'_, _lock' + r'[ ]+' + '=' + WS + A))
@@ -95,7 +99,7 @@ def _eval_str(e, name):
 
 
 def build(src, tier):
-    return [(T.world_for(src, tier), [T.t_get(), T.t_set_plain(), T.t_augassign(), T.t_lock_request()])]
+    return [(T.world_for(src, tier), [T.t_get(), T.t_set_plain(), T.t_augassign(), T.t_augassign_rhs_read(), T.t_lock_request()])]
 
 
 def extra(src, tier, seed):
